@@ -11,6 +11,7 @@
 import GoIpa.Gen.Loops
 import GoIpa.Lemmas.LoopLemmas
 import GoIpa.Model.Ipa
+import GoIpa.Lemmas.BatchInvert
 import Mathlib.Tactic.Ring
 set_option linter.unusedSectionVars false
 namespace GoIpa.Tie.Loops
@@ -178,5 +179,477 @@ theorem divideOnDomain_eq (w : Weights K) (k : Nat) (hk : k < 256) (f : List K) 
       rw [hqmap i hi']
   · simp only [hjk, ↓reduceIte]
     rw [hrest j hj hjk, if_pos hj, hqmap j hj]
+
+/-! ### the vector helpers of `ipa/config.go` -/
+
+/-- `InnerProd` -/
+theorem innerProd_eq (a b : List K) (h : a.length = b.length) :
+    Gen.Loops.innerProd a b = some (GoIpa.innerProd a b) := by
+  unfold Gen.Loops.innerProd
+  have hne : ¬ (((a.length : Nat) : Int) ≠ ((b.length : Nat) : Int)) := by simp [h]
+  simp only [hne, ↓reduceIte]
+  rw [forUp_zero]
+  congr 1
+  unfold GoIpa.innerProd sumF
+  rw [zipWith_eq_range_map (· * ·) a b 0 0 h, List.foldl_map]
+  apply List.foldl_ext
+  intro acc i _
+  simp only [get_nat]
+
+/-- `foldScalars` -/
+theorem foldScalars_eq (a b : List K) (x : K) (h : a.length = b.length) :
+    Gen.Loops.foldScalars a b x = some (GoIpa.foldScalars a b x) := by
+  unfold Gen.Loops.foldScalars
+  have hne : ¬ (((a.length : Nat) : Int) ≠ ((b.length : Nat) : Int)) := by simp [h]
+  simp only [hne, ↓reduceIte]
+  rw [forUp_zero]
+  congr 1
+  have hrep : (((a.length : Nat) : Int)).toNat = a.length := by simp
+  rw [hrep]
+  rw [foldl_pointwise a.length (0 : K) (fun i _ => x * b.getD i 0 + a.getD i 0) _ _ List.length_replicate]
+  · unfold GoIpa.foldScalars
+    rw [zipWith_eq_range_map _ a b 0 0 h]
+  · intro l i hi hl
+    simp only [get_nat, set_nat]
+    refine ⟨by simp [hl], ?_⟩
+    intro j _
+    rw [getD_set]
+    by_cases hji : j = i
+    · subst hji; simp [hl, hi]
+    · have : ¬ (i = j ∧ i < l.length) := fun hh => hji hh.1.symm
+      rw [if_neg this, if_neg hji]
+
+theorem splitScalars_eq (x : List K) (h : x.length % 2 = 0) :
+    Gen.Loops.splitScalars x = some (x.take (x.length / 2), x.drop (x.length / 2)) := by
+  unfold Gen.Loops.splitScalars
+  have hne : ¬ ((((x.length : Nat) : Int) % 2) ≠ 0) := by omega
+  simp only [hne, ↓reduceIte]
+  have e2 : ((x.length : Int) / 2) = ((x.length / 2 : Nat) : Int) := by omega
+  simp only [e2, Loop.take, Loop.drop, Int.toNat_natCast]
+
+section points
+variable {G : Type} [Zero G] [Add G] [SMul K G]
+
+/-- `foldPoints` -/
+theorem foldPoints_eq (a b : List G) (x : K) (h : a.length = b.length) :
+    Gen.Loops.foldPoints a b x = some (GoIpa.foldPoints a b x) := by
+  unfold Gen.Loops.foldPoints
+  have hne : ¬ (((a.length : Nat) : Int) ≠ ((b.length : Nat) : Int)) := by simp [h]
+  simp only [hne, ↓reduceIte]
+  rw [forUp_zero]
+  congr 1
+  have hrep : (((a.length : Nat) : Int)).toNat = a.length := by simp
+  rw [hrep]
+  rw [foldl_pointwise a.length (0 : G) (fun i _ => x • b.getD i 0 + a.getD i 0) _ _ List.length_replicate]
+  · unfold GoIpa.foldPoints
+    rw [zipWith_eq_range_map _ a b 0 0 h]
+  · intro l i hi hl
+    simp only [get_nat, set_nat]
+    refine ⟨by simp [hl], ?_⟩
+    intro j _
+    rw [getD_set]
+    by_cases hji : j = i
+    · subst hji; simp [hl, hi]
+    · have : ¬ (i = j ∧ i < l.length) := fun hh => hji hh.1.symm
+      rw [if_neg this, if_neg hji]
+
+theorem splitPoints_eq (x : List G) (h : x.length % 2 = 0) :
+    Gen.Loops.splitPoints x = some (x.take (x.length / 2), x.drop (x.length / 2)) := by
+  unfold Gen.Loops.splitPoints
+  have hne : ¬ ((((x.length : Nat) : Int) % 2) ≠ 0) := by omega
+  simp only [hne, ↓reduceIte]
+  have e2 : ((x.length : Int) / 2) = ((x.length / 2 : Nat) : Int) := by omega
+  simp only [e2, Loop.take, Loop.drop, Int.toNat_natCast]
+end points
+
+/-! ### `computeBarycentricWeightForElement`, `ComputeBarycentricCoefficients` -/
+
+theorem foldl_skip {α β : Type} (l : List α) (p : α → Prop) [DecidablePred p] (f : β → α → β) (init : β) :
+    l.foldl (fun acc x => if p x then acc else f acc x) init = (l.filter (fun x => ¬ p x)).foldl f init := by
+  induction l generalizing init with
+  | nil => rfl
+  | cons x l ih =>
+    by_cases hp : p x
+    · simp [List.filter, hp, ih]
+    · simp [List.filter, hp, ih]
+
+/-- `A'(x_i)`: the product loop with `continue` at `i = element` is the model's filtered product -/
+theorem baryWeight_eq (element : Nat) (h : element ≤ 256) :
+    Gen.Loops.computeBarycentricWeightForElement (K := K) (element : Int) = baryWeight 256 element := by
+  unfold Gen.Loops.computeBarycentricWeightForElement
+  have hgt : ¬ ((element : Int) > 256) := by omega
+  simp only [hgt, ↓reduceIte]
+  have h256 : ((256 : Int)) = ((256 : Nat) : Int) := rfl
+  rw [h256, forUp_zero]
+  unfold baryWeight prodF
+  rw [List.foldl_map]
+  have : (List.range 256).foldl (fun (st : K) (k : Nat) =>
+        if ((k : Int) = (element : Int)) then st
+        else st * ((((element : Int).toNat : Nat) : K) - ((((k : Int).toNat : Nat)) : K))) 1
+      = ((List.range 256).filter (fun k => ¬ (k = element))).foldl
+          (fun (acc : K) (j : Nat) => acc * (((element : Nat) : K) - ((j : Nat) : K))) 1 := by
+    rw [← foldl_skip (List.range 256) (fun k => k = element)]
+    apply List.foldl_ext
+    intro acc k _
+    by_cases hk : k = element
+    · simp [hk]
+    · have : ¬ ((k : Int) = (element : Int)) := by omega
+      simp [hk, this]
+  convert this using 2
+
+/-- `ComputeBarycentricCoefficients` (three loops and `BatchInvert`) over the model's batch inversion -/
+theorem baryCoeffs_eq (w : Weights K) (z : K)
+    (hbi : ∀ l : List K, Gen.Loops.batchInvert l = GoIpa.batchInvert l)
+    (hlen : ∀ l : List K, (GoIpa.batchInvert l).length = l.length) :
+    Gen.Loops.computeBarycentricCoefficients w.bary w.invDom z = w.baryCoeffs 256 z := by
+  unfold Gen.Loops.computeBarycentricCoefficients
+  simp only
+  have h256 : ((256 : Int)) = ((256 : Nat) : Int) := rfl
+  rw [h256]
+  simp only [forUp_zero, Int.toNat_natCast]
+  -- first loop: lagrangeEvals[i] = (z − i)·A'(i)
+  rw [foldl_pointwise 256 (0 : K) (fun i _ => (z - ((i : Nat) : K)) * w.bary.getD i 0) _ _ List.length_replicate
+    (by
+      intro l i hi hl
+      simp only [get_nat, set_nat, Int.toNat_natCast]
+      refine ⟨by simp [hl], ?_⟩
+      intro j _
+      rw [List.set_set, getD_set_self _ _ _ _ (by omega), getD_set]
+      by_cases hji : j = i
+      · subst hji; simp [hl, hi]
+      · have : ¬ (i = j ∧ i < l.length) := fun hh => hji hh.1.symm
+        rw [if_neg this, if_neg hji])]
+  rw [hbi]
+  unfold Weights.baryCoeffs prodF
+  simp only
+  -- second loop: the product of (z − i)
+  have hprod : (List.range 256).foldl (fun (st : K) (k : Nat) => st * (z - ((k : Nat) : K))) 1
+      = ((List.range 256).map fun (i : Nat) => z - (i : K)).foldl (· * ·) 1 := by
+    rw [List.foldl_map]
+  rw [hprod]
+  set total := ((List.range 256).map fun (i : Nat) => z - (i : K)).foldl (· * ·) 1
+  set inv := GoIpa.batchInvert ((List.range 256).map fun (i : Nat) => (z - (i : K)) * w.bary.getD i 0) with hinv
+  have hil : inv.length = 256 := by rw [hinv, hlen]; simp
+  -- third loop: every entry multiplied by the product
+  rw [foldl_pointwise 256 (0 : K) (fun _ v => v * total) _ inv hil
+    (by
+      intro l i hi hl
+      simp only [get_nat, set_nat]
+      refine ⟨by simp [hl], ?_⟩
+      intro j _
+      rw [getD_set]
+      by_cases hji : j = i
+      · subst hji; simp [hl, hi]
+      · have : ¬ (i = j ∧ i < l.length) := fun hh => hji hh.1.symm
+        rw [if_neg this, if_neg hji])]
+  conv_rhs => rw [eq_range_map inv 0, hil]
+  rw [List.map_map]
+  rfl
+
+/-! ### `NewPrecomputedWeights` -/
+
+set_option maxRecDepth 100000 in
+/-- **The two tables `NewPrecomputedWeights` builds are the model's tables.** -/
+theorem newPrecomputedWeights_eq :
+    Gen.Loops.newPrecomputedWeights (K := K) = (baryWeightsTable 256, invertedDomainTable 256) := by
+  unfold Gen.Loops.newPrecomputedWeights
+  simp only
+  have h256 : ((256 : Int)) = ((256 : Nat) : Int) := rfl
+  have h1 : ((1 : Int)) = ((1 : Nat) : Int) := rfl
+  rw [Prod.mk.injEq]
+  constructor
+  · -- A'(x_i) and 1/A'(x_i)
+    rw [h256, forUp_zero]
+    have hrep : (((256 : Nat) : Int) * 2).toNat = 2 * 256 := rfl
+    rw [hrep]
+    rw [foldl_two_blocks 256 (0 : K) (fun i => baryWeight 256 i) (fun i => (baryWeight 256 i : K)⁻¹)]
+    · rfl
+    · intro l k hk _
+      rw [baryWeight_eq k (by omega), ← Nat.cast_add, set_nat, set_nat]
+  · -- 1/k and −1/k
+    have h255 : ((256 : Int) - 1) = ((255 : Nat) : Int) := rfl
+    rw [h255, h256, h1, forUp_nat 1 256]
+    have hrep : (((255 : Nat) : Int) * 2).toNat = 2 * 255 := rfl
+    rw [hrep]
+    show List.foldl _ _ (List.range 255) = _
+    rw [foldl_two_blocks 255 (0 : K) (fun i => (((i + 1 : Nat) : K))⁻¹) (fun i => (0 : K) - (((i + 1 : Nat) : K))⁻¹)]
+    · rfl
+    · intro l k hk _
+      have e1 : (((1 + k : Nat) : Int) - ((1 : Nat) : Int)) = ((k : Nat) : Int) := by omega
+      have e2 : (((1 + k : Nat) : Int)).toNat = k + 1 := by omega
+      rw [e1, e2, ← Nat.cast_add, set_nat, set_nat]
+
+/-! ### `common.PowersOf` -/
+
+/-- `x^j` without a monoid: `j` multiplications by `x` -/
+def iterMul (x : K) (c : K) : Nat → K
+  | 0 => c
+  | j + 1 => iterMul x (c * x) j
+
+theorem powersFrom_getD (x c : K) (n j : Nat) (hj : j < n) : (powersFrom x c n).getD j 0 = iterMul x c j := by
+  induction n generalizing c j with
+  | zero => omega
+  | succ n ih =>
+    cases j with
+    | zero => simp [powersFrom, iterMul]
+    | succ j =>
+      simp only [powersFrom, List.getD_cons_succ, iterMul]
+      exact ih (c * x) j (by omega)
+
+theorem powersFrom_length (x c : K) (n : Nat) : (powersFrom x c n).length = n := by
+  induction n generalizing c with
+  | zero => rfl
+  | succ n ih => simp [powersFrom, ih]
+
+theorem iterMul_succ (x c : K) (j : Nat) : iterMul x c (j + 1) = iterMul x c j * x := by
+  induction j generalizing c with
+  | zero => rfl
+  | succ j ih =>
+    show iterMul x (c * x) (j + 1) = iterMul x (c * x) j * x
+    exact ih (c * x)
+
+/-- **`PowersOf`** (`result[i] = result[i-1]·x`) is the model's list of powers -/
+theorem powersOf_eq (x : K) (n : Nat) (hn : 1 ≤ n) : Gen.Loops.powersOf x (n : Int) = GoIpa.powersOf x n := by
+  unfold Gen.Loops.powersOf GoIpa.powersOf
+  simp only
+  have h1 : ((1 : Int)) = ((1 : Nat) : Int) := rfl
+  have h0 : ((0 : Int)) = ((0 : Nat) : Int) := rfl
+  rw [h1, forUp_nat 1 n, h0, set_nat, Int.toNat_natCast]
+  have inv := foldl_range_inv
+    (fun k (l : List K) => l.length = n ∧ ∀ j, j < n → l.getD j 0 = if j ≤ k then iterMul x 1 j else 0)
+    (fun (st : List K) (k : Nat) => Loop.set st (((1 + k : Nat)) : Int)
+      (Loop.get st ((((1 + k : Nat)) : Int) - ((1 : Nat) : Int)) 0 * x))
+    ((List.replicate n (0 : K)).set 0 1) (n - 1)
+    (by
+      refine ⟨by simp, ?_⟩
+      intro j hj
+      rw [getD_set]
+      by_cases hj0 : j = 0
+      · subst hj0
+        rw [if_pos ⟨rfl, by rw [List.length_replicate]; omega⟩]
+        simp [iterMul]
+      · have : ¬ (0 = j ∧ 0 < (List.replicate n (0 : K)).length) := fun hh => hj0 hh.1.symm
+        rw [if_neg this, getD_replicate _ _ _ _ hj]
+        have : ¬ (j ≤ 0) := by omega
+        rw [if_neg this])
+    (by
+      intro k l hk ⟨hlen, hpt⟩
+      have e1 : (((1 + k : Nat) : Int) - ((1 : Nat) : Int)) = ((k : Nat) : Int) := by omega
+      rw [e1, get_nat, set_nat]
+      refine ⟨by simp [hlen], ?_⟩
+      intro j hj
+      rw [getD_set]
+      by_cases hjk : 1 + k = j
+      · subst hjk
+        rw [if_pos ⟨rfl, by omega⟩, hpt k (by omega), if_pos (Nat.le_refl k), if_pos (by omega)]
+        have : 1 + k = k + 1 := by omega
+        rw [this, iterMul_succ]
+      · have : ¬ (1 + k = j ∧ 1 + k < l.length) := fun hh => hjk hh.1
+        rw [if_neg this, hpt j hj]
+        have hiff : (j ≤ k + 1) ↔ (j ≤ k) := by omega
+        simp only [hiff])
+  obtain ⟨hlen, hpt⟩ := inv
+  apply ext_getD _ _ (0 : K) (by rw [hlen, powersFrom_length])
+  intro j hj
+  rw [hlen] at hj
+  rw [hpt j hj, if_pos (by omega), powersFrom_getD x 1 n j hj]
+
+/-! ### `fr.BatchInvert` — proved correct directly on the translated code -/
+
+section field
+variable {F : Type} [Field F] [DecidableEq F]
+
+theorem forDown_nat {σ : Type} (n : Nat) (hn : 1 ≤ n) (st : σ) (body : Int → σ → σ) :
+    Loop.forDown ((n : Int) - 1) 0 st body
+      = (List.range n).foldl (fun st (k : Nat) => body (((n - 1 - k : Nat)) : Int) st) st := by
+  unfold Loop.forDown
+  have : ((n : Int) - 1 - 0 + 1).toNat = n := by omega
+  rw [this]
+  apply List.foldl_ext
+  intro st k hk
+  have hk' : k < n := List.mem_range.mp hk
+  congr 1
+  omega
+
+/-- product of the non-zero entries among the first `j` -/
+def pref (a : List F) (j : Nat) : F := biTotal 1 (a.take j)
+
+theorem biTotal_append (c : F) (l : List F) (x : F) :
+    biTotal c (l ++ [x]) = if x = 0 then biTotal c l else biTotal c l * x := by
+  induction l generalizing c with
+  | nil => simp [biTotal]
+  | cons y l ih =>
+    by_cases hy : y = 0
+    · simp only [List.cons_append, biTotal, hy, ↓reduceIte]; exact ih c
+    · simp only [List.cons_append, biTotal, hy, ↓reduceIte]; exact ih (c * y)
+
+theorem pref_zero (a : List F) : pref a 0 = 1 := by simp [pref, biTotal]
+
+theorem pref_succ (a : List F) (j : Nat) (hj : j < a.length) :
+    pref a (j + 1) = if a.getD j 0 = 0 then pref a j else pref a j * a.getD j 0 := by
+  unfold pref
+  rw [List.take_succ_eq_append_getElem hj, biTotal_append]
+  simp [List.getD_eq_getElem?_getD, hj]
+
+theorem pref_ne_zero (a : List F) (j : Nat) : pref a j ≠ 0 := biTotal_ne_zero 1 one_ne_zero _
+
+attribute [-simp] List.getD_eq_getElem?_getD in
+/-- **`fr.BatchInvert`, as written in Go (two passes over index loops with `continue`, a `[]bool`
+of zero flags, in-place products), returns the entry-wise inverse with zeros left at zero**, for
+every input list — hence it is the model's `batchInvert`. -/
+theorem batchInvert_spec (a : List F) : Gen.Loops.batchInvert a = a.map (·⁻¹) := by
+  unfold Gen.Loops.batchInvert
+  simp only
+  by_cases hn0 : a.length = 0
+  · have : (((a.length : Nat) : Int) = 0) := by omega
+    simp only [this, ↓reduceIte]
+    have : a = [] := List.eq_nil_of_length_eq_zero hn0
+    subst this; rfl
+  have hne : ¬ (((a.length : Nat) : Int) = 0) := by omega
+  simp only [hne, ↓reduceIte]
+  set n := a.length with hn
+  have hn1 : 1 ≤ n := by omega
+  rw [forUp_zero, forDown_nat n hn1, Int.toNat_natCast]
+  -- forward pass
+  have fwd := foldl_range_inv
+    (fun k (st : List Bool × List F × F) => st.1.length = n ∧ st.2.1.length = n ∧ st.2.2 = pref a k ∧
+      ∀ j, j < n → st.1.getD j false = decide (j < k ∧ a.getD j 0 = 0) ∧
+        st.2.1.getD j 0 = if j < k ∧ a.getD j 0 ≠ 0 then pref a j else 0)
+    (fun (st : List Bool × List F × F) (k : Nat) =>
+      match st with
+      | (zeroes, res, accumulator) =>
+        if Loop.get a (k : Int) 0 = 0 then (Loop.set zeroes (k : Int) true, res, accumulator)
+        else (zeroes, Loop.set res (k : Int) accumulator, accumulator * Loop.get a (k : Int) 0))
+    (List.replicate n false, List.replicate n (0 : F), (1 : F)) n
+    ⟨List.length_replicate, List.length_replicate, (pref_zero a).symm, fun j hj => by
+      rw [getD_replicate _ _ _ _ hj, getD_replicate _ _ _ _ hj]; simp⟩
+    (by
+      rintro k ⟨zs, res, acc⟩ hk ⟨h1, h2, h3, h4⟩
+      simp only at h1 h2 h3 h4
+      simp only [get_nat, set_nat]
+      by_cases hz : a.getD k 0 = 0
+      · simp only [hz, ↓reduceIte]
+        refine ⟨by simp [h1], h2, by rw [h3, pref_succ a k hk, if_pos hz], ?_⟩
+        intro j hj
+        obtain ⟨g1, g2⟩ := h4 j hj
+        constructor
+        · rw [getD_set]
+          by_cases hkj : k = j
+          · subst hkj; simp [h1, hk, hz]
+          · have : ¬ (k = j ∧ k < zs.length) := fun hh => hkj hh.1
+            rw [if_neg this, g1]
+            by_cases hjk : j < k
+            · simp [hjk, Nat.lt_succ_of_lt hjk]
+            · have : ¬ j < k + 1 := by omega
+              simp [hjk, this]
+        · rw [g2]
+          by_cases hkj : k = j
+          · subst hkj; simp [hz]
+          · have hiff : (j < k + 1) ↔ (j < k) := by omega
+            simp only [hiff]
+      · simp only [hz, ↓reduceIte]
+        refine ⟨h1, by simp [h2], by rw [h3, pref_succ a k hk, if_neg hz], ?_⟩
+        intro j hj
+        obtain ⟨g1, g2⟩ := h4 j hj
+        constructor
+        · rw [g1]
+          by_cases hkj : k = j
+          · subst hkj; simp [hz]
+          · have hiff : (j < k + 1) ↔ (j < k) := by omega
+            simp only [hiff]
+        · rw [getD_set]
+          by_cases hkj : k = j
+          · subst hkj; simp [h2, hk, hz, h3]
+          · have : ¬ (k = j ∧ k < res.length) := fun hh => hkj hh.1
+            rw [if_neg this, g2]
+            have hiff : (j < k + 1) ↔ (j < k) := by omega
+            simp only [hiff])
+  generalize hF : List.foldl _ (List.replicate n false, List.replicate n (0 : F), (1 : F)) (List.range n) = F1 at fwd ⊢
+  obtain ⟨zs, res0, acc0⟩ := F1
+  obtain ⟨f1, f2, f3, f4⟩ := fwd
+  simp only at f1 f2 f3 f4 ⊢
+  -- backward pass
+  have bwd := foldl_range_inv
+    (fun k (st : List F × F) => st.1.length = n ∧ st.2 = (pref a (n - k))⁻¹ ∧
+      ∀ j, j < n → st.1.getD j 0 = if n - k ≤ j then (a.getD j 0)⁻¹ else (if a.getD j 0 ≠ 0 then pref a j else 0))
+    (fun (st : List F × F) (k : Nat) =>
+      match st with
+      | (res, accumulator) =>
+        if Loop.get zs (((n - 1 - k : Nat)) : Int) false = true then (res, accumulator)
+        else (Loop.set res (((n - 1 - k : Nat)) : Int) (Loop.get res (((n - 1 - k : Nat)) : Int) 0 * accumulator),
+          accumulator * Loop.get a (((n - 1 - k : Nat)) : Int) 0))
+    (res0, acc0⁻¹) n
+    ⟨f2, by rw [f3]; simp, fun j hj => by
+      rw [(f4 j hj).2]
+      have : ¬ (n - 0 ≤ j) := by omega
+      simp [this, hj]⟩
+    (by
+      rintro k ⟨res, acc⟩ hk ⟨h1, h2, h3⟩
+      simp only at h1 h2 h3
+      simp only [get_nat, set_nat]
+      have hi : n - 1 - k < n := by omega
+      have hsucc : n - k = (n - 1 - k) + 1 := by omega
+      have hpk : pref a (n - k) = if a.getD (n - 1 - k) 0 = 0 then pref a (n - 1 - k)
+          else pref a (n - 1 - k) * a.getD (n - 1 - k) 0 := by
+        rw [hsucc]; exact pref_succ a _ hi
+      have hnk1 : n - (k + 1) = n - 1 - k := by omega
+      rw [(f4 _ hi).1]
+      by_cases hz : a.getD (n - 1 - k) 0 = 0
+      · have : (decide (n - 1 - k < n ∧ a.getD (n - 1 - k) 0 = 0)) = true := by simp [hi, hz]
+        simp only [this, ↓reduceIte]
+        refine ⟨h1, by rw [h2, hpk, if_pos hz, hnk1], ?_⟩
+        intro j hj
+        rw [h3 j hj, hnk1]
+        by_cases hji : j = n - 1 - k
+        · have a1 : ¬ (n - k ≤ j) := by omega
+          have a2 : n - 1 - k ≤ j := by omega
+          rw [if_neg a1, if_pos a2, hji, hz]; simp
+        · have hiff : (n - k ≤ j) ↔ (n - 1 - k ≤ j) := by omega
+          simp only [hiff]
+      · have : (decide (n - 1 - k < n ∧ a.getD (n - 1 - k) 0 = 0)) = false := by simp [hz]
+        simp only [this, Bool.false_eq_true, ↓reduceIte]
+        have hp := pref_ne_zero a (n - 1 - k)
+        refine ⟨by simp [h1], ?_, ?_⟩
+        · rw [h2, hpk, if_neg hz, hnk1]
+          field_simp
+        · intro j hj
+          rw [getD_set, hnk1]
+          by_cases hji : n - 1 - k = j
+          · subst hji
+            rw [if_pos ⟨rfl, by omega⟩, h3 _ hi]
+            have a1 : ¬ (n - k ≤ n - 1 - k) := by omega
+            rw [if_neg a1, if_pos hz, if_pos (Nat.le_refl _), h2, hpk, if_neg hz]
+            field_simp
+          · have : ¬ (n - 1 - k = j ∧ n - 1 - k < res.length) := fun hh => hji hh.1
+            rw [if_neg this, h3 j hj]
+            have hiff : (n - k ≤ j) ↔ (n - 1 - k ≤ j) := by omega
+            simp only [hiff])
+  generalize hB : List.foldl _ (res0, acc0⁻¹) (List.range n) = B1 at bwd ⊢
+  obtain ⟨res1, acc1⟩ := B1
+  obtain ⟨b1, _, b3⟩ := bwd
+  simp only at b1 b3 ⊢
+  apply ext_getD _ _ (0 : F) (by rw [b1, List.length_map])
+  intro j hj
+  rw [b1] at hj
+  rw [b3 j hj, if_pos (by omega)]
+  have hja : j < a.length := by omega
+  simp [List.getD_eq_getElem?_getD, List.getElem?_eq_getElem hja]
+
+/-- hence the translated `BatchInvert` is the model's -/
+theorem batchInvert_eq (a : List F) : Gen.Loops.batchInvert a = GoIpa.batchInvert a := by
+  rw [batchInvert_spec, batchInvert_eq_map]
+
+/-- `ComputeBarycentricCoefficients`, unconditionally over a field -/
+theorem baryCoeffs_eq_field (w : Weights F) (z : F) :
+    Gen.Loops.computeBarycentricCoefficients w.bary w.invDom z = w.baryCoeffs 256 z :=
+  baryCoeffs_eq w z batchInvert_eq batchInvert_length
+
+end field
+
+/-- nothing the translator emitted is left without a tie theorem above -/
+theorem all_translated_tied : Gen.Loops.translated =
+    ["BatchInvert", "ComputeBarycentricCoefficients", "DivideOnDomain", "InnerProd", "NewPrecomputedWeights",
+     "PowersOf", "absInt", "computeBarycentricWeightForElement", "foldPoints", "foldScalars",
+     "getInvertedElement", "getRatioOfWeights", "splitPoints", "splitScalars"] := by decide
 
 end GoIpa.Tie.Loops
